@@ -398,6 +398,9 @@ func (cc *connectUnaryClientConn) validateResponse(response *http.Response) *Err
 			(*connectWireError)(&serverErr),
 			json.Unmarshal,
 		); err == nil {
+			if serverErr.code == 0 {
+				serverErr.code = connectHTTPToCode(response.StatusCode)
+			}
 			serverErr.meta = cc.responseHeader.Clone()
 			mergeHeaders(serverErr.meta, cc.responseTrailer)
 			return &serverErr
